@@ -69,7 +69,8 @@ type lockTrace struct {
 }
 
 type lockRes struct {
-	Traces []lockTrace `json:"traces"`
+	Traces []lockTrace         `json:"traces"`
+	Viols  []*report.Violation `json:"viols,omitempty"`
 }
 
 func c06Probes() []fsx.Op {
@@ -103,7 +104,8 @@ func lockJob(raw json.RawMessage) (interface{}, error) {
 	for _, op := range c06Probes() {
 		var tr lockTrace
 		enabled := false
-		vrt.Run(vrt.Config{}, func() {
+		seenEdge := map[[2]uint64]bool{}
+		res := vrt.Run(vrt.Config{Horizon: 100_000_000}, func() {
 			w := NewWorld(base)
 			for _, o := range a.Setup {
 				w.Do(o)
@@ -124,16 +126,29 @@ func lockJob(raw json.RawMessage) (interface{}, error) {
 				}
 				if kind == 0 {
 					for h := range held {
-						tr.Edges = append(tr.Edges, [2]uint64{h, addr})
+						if e := [2]uint64{h, addr}; !seenEdge[e] {
+							seenEdge[e] = true
+							tr.Edges = append(tr.Edges, e)
+						}
 					}
 					held[addr] = true
 				} else {
 					delete(held, addr)
 				}
 			})
+			vrt.SetHorizon(vrt.Steps() + 400_000) // (a single request alone: more than that is a loop that never ends)
 			w.Do(op)
+			vrt.SetHorizon(vrt.Steps() + 20_000_000)
 			vrt.SetLockObs(nil)
 		})
+		if v := VerdictViolation(&res, "C06", "alone|"+tr.Class); v != nil {
+			v.Detail = "history: " + fsx.Hist(append(append(append([]fsx.Op{}, a.Setup...), a.Path...), op)) + "\n" + v.Detail
+			v.Replay = map[string]interface{}{"job": "c06.locks", "arg": a}
+			if len(out.Viols) < 4 {
+				out.Viols = append(out.Viols, v)
+			}
+			continue
+		}
 		if enabled && len(tr.Edges) > 0 {
 			sort.Slice(tr.Edges, func(i, j int) bool {
 				if tr.Edges[i][0] != tr.Edges[j][0] {
@@ -217,6 +232,9 @@ func C06(r *report.Report, tier string) {
 		var x lockRes
 		json.Unmarshal(res.Out, &x)
 		ntraces += len(x.Traces)
+		for _, v := range x.Viols {
+			r.Violate(*v)
+		}
 		for i := 0; i < len(x.Traces); i++ {
 			for j := i; j < len(x.Traces); j++ {
 				a, b := x.Traces[i], x.Traces[j]
